@@ -25,6 +25,7 @@ import (
 	epb "github.com/google/gce-tcb-verifier/proto/endorsement"
 	"github.com/google/gce-tcb-verifier/sev"
 	"github.com/google/gce-tcb-verifier/verify"
+	sabi "github.com/google/go-sev-guest/abi"
 	cpb "github.com/google/go-sev-guest/proto/check"
 	spb "github.com/google/go-sev-guest/proto/sevsnp"
 	"github.com/google/go-sev-guest/validate"
@@ -73,7 +74,14 @@ func extractEndorsement(attestation *spb.Attestation, opts *SevValidateOptions) 
 		return nil, fmt.Errorf("could not extract endorsement")
 
 	}
-	obj := extractsev.GCETcbObjectName(sev.GCEUefiFamilyID, attestation.GetReport().GetMeasurement())
+	// The object is named after the whole launch measurement: nothing is asked of the bucket for a
+	// report whose measurement is absent or not full length.
+	measurement := attestation.GetReport().GetMeasurement()
+	if len(measurement) != sabi.MeasurementSize {
+		return nil, fmt.Errorf("failed to get endorsement: report measurement is %d bytes, want %d",
+			len(measurement), sabi.MeasurementSize)
+	}
+	obj := extractsev.GCETcbObjectName(sev.GCEUefiFamilyID, measurement)
 	url := verify.GCETcbURL(obj)
 	bin, err := opts.Getter.Get(url)
 	if err != nil {
